@@ -265,7 +265,7 @@ def hist_cases(run):
     cap = pm.PARENT_CACHE_SIZE
     rng = run.rng
     for km in KINDMODES:
-        per = (4 if km.endswith(".e") else 2) if run.tier == "quick" else (80 if km.endswith(".e") else 40)
+        per = (10 if km.endswith(".e") else 5) if run.tier == "quick" else (300 if km.endswith(".e") else 150)
         for _ in range(per):
             seed = rng.randint(0, 10 ** 6)
             h, flavour = history(rng, km, cap)
@@ -282,6 +282,32 @@ def hist_cases(run):
             part = toks[i:i + 30]
             run.count("hist:sweep")
             yield f"hist {km} {seed} " + " ".join(part + [f"P{cap + 5}"] + part[::-1])
+
+
+def shrink(failure, mod=None):
+    """drop history tokens while the real code still gives a digest of the same families"""
+    line = failure["line"]
+    t = line.split()
+    if t[0] != "hist" or not failure["impl"].startswith("ok fam="):
+        return failure
+    fam = failure["impl"].split()[1]
+    toks = t[3:]
+
+    def still(ts):
+        out = impl(" ".join(t[:3] + ts))
+        return out.startswith("ok fam=") and out.split()[1] == fam
+    i, budget = 0, 400
+    while i < len(toks) and budget > 0:
+        cand = toks[:i] + toks[i + 1:]
+        budget -= 1
+        if cand and still(cand):
+            toks = cand
+        else:
+            i += 1
+    small = " ".join(t[:3] + toks)
+    out = impl(small)
+    return {"line": small, "impl": out, "model": None, "spec": "fail " + " ".join(out.split()[1:4]),
+            "shrunk_from": line}
 
 
 def cases(run):
